@@ -1,12 +1,15 @@
 package harness
 
 import (
+	"bytes"
 	"encoding/binary"
 	"fmt"
 	"math/rand"
 	"os"
 	"sort"
+	"strconv"
 	"strings"
+	"sync/atomic"
 	"testing"
 	"time"
 
@@ -264,6 +267,33 @@ func (c *rawScn) step(st string) {
 		if p := c.pipes[arg(1)]; p != nil && !p.IsClosed() && p.Blocked() {
 			p.Release()
 		}
+	case "burst":
+		// arg(1) application goroutines, each calling Send arg(2) times back to back, all started together:
+		// the calls overlap for real (no quiescence in between)
+		k, _ := strconv.Atoi(arg(1))
+		n, _ := strconv.Atoi(arg(2))
+		if n == 0 {
+			n = 1
+		}
+		gate := make(chan struct{})
+		for i := 0; i < k; i++ {
+			var calls []sim.PCall
+			for j := 0; j < n; j++ {
+				hdr, body, ok, to, skip, h := c.mkSend("ok")
+				sock := c.sock
+				calls = append(calls, sim.PCall{Op: "send", O: "s",
+					Args: []interface{}{"tag", rawTag(body), "ok", ok, "to", to, "skip", skip, "h", h},
+					Fn: func() []interface{} {
+						m := appNew(s, len(body))
+						m.Header = append(m.Header, hdr...)
+						m.Body = append(m.Body, body...)
+						err := appSend(s, m, sock.SendMsg)
+						return []interface{}{"r", err}
+					}})
+			}
+			s.SerialC(s.Thread(), calls, gate)
+		}
+		close(gate)
 	case "send":
 		hdr, body, ok, to, skip, h := c.mkSend(arg(1))
 		sock := c.sock
@@ -404,6 +434,9 @@ func rawRandom(p rawProto, rng *rand.Rand) rawCfg {
 	injKinds := []string{"ok", "ok", "ok", "ok", "ok", "bad", "short"}
 	for i := 0; i < steps; i++ {
 		opts := []string{"send", "send", "send", "recv", "recv", "adv"}
+		if rng.Intn(6) == 0 {
+			opts = append(opts, "burst")
+		}
 		if np < 4 {
 			opts = append(opts, "conn", "conn", "conngated")
 		}
@@ -417,6 +450,8 @@ func rawRandom(p rawProto, rng *rand.Rand) rawCfg {
 		switch o {
 		case "conn", "conngated":
 			np++
+		case "burst":
+			o += fmt.Sprintf(" %d %d", 2+rng.Intn(2), 1+rng.Intn(2))
 		case "send":
 			o += " " + sendKinds[rng.Intn(len(sendKinds))]
 		case "inj":
@@ -448,6 +483,8 @@ func rawScripted(p rawProto) []rawCfg {
 	case "xpush":
 		return []rawCfg{
 			mk(id, "conn", "conn", "conn", "send ok", "send ok", "send ok", "send ok", "drop p2", "send ok", "send ok", "send ok", "recv"),
+			// concurrent senders (small: the validator explores every order in which overlapping calls may take effect)
+			mk(func(c *rawCfg) { c.SQ = 8 }, "conn", "burst 3 2", "burst 2 3", "conn", "burst 3 2", "burst 2 2"),
 			mk(func(c *rawCfg) { c.SQ = 1 }, "conngated", "conngated", "send ok", "send ok", "send ok", "send ok", "release p1", "release p2", "release p1", "drop p2", "send ok", "release p1"),
 			mk(func(c *rawCfg) { c.FailNoPeers, c.SQ = true, 1 }, "send ok", "conngated", "send ok", "send ok", "send ok", "drop p1", "send ok", "conn", "send ok"),
 			mk(func(c *rawCfg) { c.BestEffort, c.SQ = true, 1 }, "send ok", "send ok", "send ok", "conn", "send ok"),
@@ -548,5 +585,110 @@ func TestRawPushSQ0(t *testing.T) {
 			out.Add(fmt.Sprintf("pushsq0-%d", i), eff, fmt.Sprint(p.name, steps), res)
 			i++
 		}
+	}
+}
+
+// TestRawStorm (C02 / C08 / C11): several application goroutines call Send back to back at the same time on a
+// raw or cooked socket whose peers take everything at once; at every quiescence everything accepted must have
+// been handed to the transports (once in all, or once per pipe for the broadcasting patterns) and no Send may
+// be left waiting.  Validated by TraceBurst.tla (the quiescence law of RawSock.tla on counts).
+func TestRawStorm(t *testing.T) {
+	out := newOut(t, "rawstorm")
+	defer out.Close()
+	rounds := count(5000, 60000)
+	for _, p := range rawProtos {
+		mode := ""
+		switch p.eng {
+		case "xpush", "xpair", "xpair1", "xreq":
+			mode = "one"
+		case "xpub", "xbus", "xstar", "xsurveyor":
+			mode = "all"
+		default:
+			continue
+		}
+		p, mode := p, mode
+		res := sim.Run(t, 60*time.Second, func(s *sim.S) {
+			s.Rec.SetSilent(true)
+			sock := protocol.MakeSocket(p.mk())
+			_ = sock.SetOption(mangos.OptionWriteQLen, 128)
+			must(sock.Listen(s.Net.Addr("l1")))
+			np := 2
+			if p.eng == "xpair" || p.eng == "xpair1" {
+				np = 1
+			}
+			var pipes []*vt.Pipe
+			for i := 0; i < np; i++ {
+				vp := s.Net.NewPipe(fmt.Sprintf("p%d", i+1))
+				vp.SetQuiet(true)
+				pipes = append(pipes, vp)
+				s.Net.Listener("l1").Offer(vp)
+			}
+			s.Wait()
+			var accepted, blocked atomic.Int64
+			c := &rawScn{s: s, cfg: rawCfg{P: p, TTL: 8, SQ: 128, RQ: 8}, sock: sock, ids: hx.NewIDMap(), rng: rand.New(rand.NewSource(1)), pipes: map[string]*vt.Pipe{}}
+			n := 0
+			for r := 0; r < rounds; r++ {
+				gate := make(chan struct{})
+				k, m := 2+r%3, 1+r%2 // the interesting moment is the start of a round: the socket is idle, several Sends arrive at once
+				for g := 0; g < k; g++ {
+					var msgs []*mangos.Message
+					for j := 0; j < m; j++ {
+						hdr, _, _, _, _, _ := c.mkSend("ok")
+						n++
+						mm := mangos.NewMessage(16)
+						mm.Header = append(mm.Header, hdr...)
+						mm.Body = append(mm.Body, fmt.Sprintf("#%d", n)...)
+						msgs = append(msgs, mm)
+					}
+					blocked.Add(1)
+					go func() {
+						<-gate
+						for _, mm := range msgs {
+							if err := sock.SendMsg(mm); err == nil {
+								accepted.Add(1)
+							} else {
+								mm.Free()
+							}
+						}
+						blocked.Add(-1)
+					}()
+				}
+				close(gate)
+				s.Wait()
+				if r%250 != 249 && r != rounds-1 {
+					continue // (a message left behind stays behind: looking now and then is enough)
+				}
+				sent := make([]int, len(pipes))
+				dup := false
+				seen := map[string]int{}
+				for i, vp := range pipes {
+					msgs := vp.Sent()
+					sent[i] = len(msgs)
+					per := map[string]bool{}
+					for _, b := range msgs {
+						tag := string(b[bytes.IndexByte(b, '#'):])
+						if per[tag] {
+							dup = true
+						}
+						per[tag] = true
+						seen[tag]++
+					}
+				}
+				if mode == "one" {
+					for _, v := range seen {
+						if v > 1 {
+							dup = true
+						}
+					}
+				}
+				s.Rec.SetSilent(false)
+				s.Rec.Emit("bq", "eng", p.name, "mode", mode, "accepted", int(accepted.Load()), "sent", sent, "blocked", int(blocked.Load()), "dup", dup)
+				s.Rec.SetSilent(true)
+			}
+			_ = sock.Close()
+			time.Sleep(2 * time.Second)
+			s.Wait()
+		})
+		out.Add("storm-"+p.name, rec.Ev{"label": p.name}, p.name, res)
 	}
 }
